@@ -36,11 +36,12 @@ ExpectC34 == [lsp |-> "ok"]
    A process abort (stack overflow, allocation failure) or a non-termination has no site; the only
    family recognisable from the input text is the missing occurs check of type inference:
 
-   "fn-cycle":  a top-level function name is used as a *value* (not directly called, not declared,
-   not a field name) inside a function body, and these uses form a cycle  f -> ... -> f  over the
-   functions of the file (the simplest instance: `fn g(a: int) { g }`).  The inferred type of f then
-   contains itself; unification recurses without bound (stack overflow abort in check / compile /
-   check_lsp) or builds an unbounded type (allocation until the memory limit / time limit).
+   "fn-cycle":  a top-level function name g is used as a *value* (not directly called, not declared,
+   not a field name) inside the body of a function f, and f is reachable from g through references
+   (calls or value uses) in function bodies -- the simplest instance is `fn g(a: int) { g }`, a longer one
+   `fn a() { b() }  fn b() { c() }  fn c() { a }`.  The inferred type of g then contains itself;
+   unification recurses without bound (stack overflow abort in check / compile / check_lsp) or builds
+   an unbounded type (allocation until the memory limit / time limit).
 
    S is the sequence of solid lexeme texts of the input.                                       *)
 IsIdent(s) == Len(s) > 0 /\ Head1(s) \in {"a","b","c","d","e","f","g","h","i","j","k","l","m","n","o","p","q","r","s","t",
@@ -65,16 +66,16 @@ ValueUse(S, k, names) ==
   /\ (k = Len(S) \/ S[k + 1] # "(")
   /\ (k = 1 \/ S[k - 1] \notin {"fn", "."})
 
-\* f -> g  iff  g is used as a value in the body of f
-ValueEdges(S) ==
-  LET names == FnNames(S) IN
-  UNION { LET r == BodyOf(S, j) IN { <<S[j + 1], S[k]>> : k \in {k \in r[1]..r[2] : ValueUse(S, k, names)} }
-          : j \in FnDeclIdx(S) }
+\* f -> g  iff  g is used as a value in the body of f  /  g is mentioned at all in the body of f
+EdgesBy(S, P(_)) ==
+  UNION { LET r == BodyOf(S, j) IN { <<S[j + 1], S[k]>> : k \in {k \in r[1]..r[2] : P(k)} } : j \in FnDeclIdx(S) }
+ValueEdges(S) == LET names == FnNames(S) IN EdgesBy(S, LAMBDA k : ValueUse(S, k, names))
+RefEdges(S) == LET names == FnNames(S) IN EdgesBy(S, LAMBDA k : S[k] \in names /\ (k = 1 \/ S[k - 1] # "fn"))
 
-\* is there a cycle?  (reachability by iterated image; the name sets are small)
+\* a value edge f -> g that closes a cycle: f is reachable from g  (reachability by iterated image; the name sets are small)
 RECURSIVE ReachFrom(_, _)
 ReachFrom(E, F) == LET nxt == F \cup {e[2] : e \in {e \in E : e[1] \in F}} IN IF nxt = F THEN F ELSE ReachFrom(E, nxt)
-FnCycle(S) == LET E == ValueEdges(S) IN \E e \in E : e[1] \in ReachFrom(E, {e[2]})
+FnCycle(S) == LET R == RefEdges(S) IN \E e \in ValueEdges(S) : e[1] \in ReachFrom(R, {e[2]})
 
 Family(o) == IF FnCycle(o.lex) THEN "fn-cycle" ELSE "input=" \o o.id
 
@@ -108,7 +109,16 @@ Seeds == <<
   [n |-> "fn-returns-itself",   t |-> "fn g(a: int) { g }"],
   [n |-> "fn-operand-of-itself", t |-> "fn x(sub, y) { x - y }"],
   [n |-> "fn-mutual-cycle",     t |-> "fn f() { g }\nfn g() { f }"],
+  [n |-> "fn-cycle-through-calls", t |-> "fn a1() { b1() }\nfn b1() { c1() }\nfn c1() { a1 }"],
   [n |-> "task-block",          t |-> "let c = channel()\nlet t = task { c.write(1) }\nprintln(c.read())"],
+  [n |-> "task-in-lambda",      t |-> "let f = () -> task { 1 }"],
+  [n |-> "nested-lambda-capture", t |-> "let x = 1\nlet f = () -> { let g = () -> x\n g() }\nf()"],
+  [n |-> "break-in-lambda-in-loop", t |-> "var i = 0\nwhile i < 1 { let f = () -> { break }\n i = i + 1 }"],
+  [n |-> "assign-captured-var", t |-> "var x = 1\nlet f = () -> { x = 2 }"],
+  [n |-> "lambda-match-captured", t |-> "let v = 3\nlet f = (q: int) -> match v { 1 -> -9, _ -> 4 }"],
+  [n |-> "impl-for-unparsable-type", t |-> "implement ToString forfn self)\"Person(\""],
+  [n |-> "try-impl-with-syntax-error", t |-> "type St = | Bad | Good\nimplement Try for St {\n fn branch(self) -> ControlFlow<St, St> {\n match self {\n .Bad -> .Break(self)\n .Good -> .Continueself)\n }\n }\n fn from_residual(r: St) -> St { r }\n}\nfn t() -> St {\n St.Good?\n St.Bad\n}\n"],
+  [n |-> "unterminated-multiline-string", t |-> "\"\"\"a\n\n"],
   [n |-> "empty",               t |-> ""],
   [n |-> "hello",               t |-> "println(\"hello\")"]
 >>
